@@ -1,12 +1,12 @@
 import Mixin.Prelude.Proto
-import Mixin.Model.ConsensusCodes
+import Mixin.Model.ConsensusChainCodes
 /-! Line-protocol driver for the consensus-chain model (C28).
 
 Lines are `op args… | oracle…`: the part before `|` is what the Go harness executes, the
 part after it carries what the harness observed of the inputs (resolved timestamps, payload
 hashes, `TransactionType()` codes, reference heads) — never a decision. -/
-namespace Mixin.Driver.Consensus
-open Mixin.Proto Mixin.Consensus
+namespace Mixin.Driver.ConsensusChain
+open Mixin.Proto Mixin.ConsensusChain
 open Mixin.Facts
 
 def codes : Codes := realCodes
@@ -153,4 +153,4 @@ def step (d : DState) (t : List String) : DState × String :=
 
 def run : IO Unit := runLoop init step
 
-end Mixin.Driver.Consensus
+end Mixin.Driver.ConsensusChain
